@@ -1624,7 +1624,7 @@ class TokamakEquilibrium(Equilibrium):
                     if region["psi"] is None:
                         raise ValueError("No psi values in region")
                     leg_psi = region["psi"]
-                    eqreg.pressure = lambda psi: self.pressure(
+                    eqreg.pressure = lambda psi, leg_psi=leg_psi: self.pressure(
                         leg_psi + sign * abs(psi - leg_psi)
                     )
                 else:
